@@ -11,7 +11,7 @@
       - the specification ([spec_step]): "the property holds the sequence last assigned to it".
     Doubles are opaque payloads ([F64], one NaN); integers are [Z] (the C++ types bound them, see [value_wf]);
     strings are byte strings without NUL (the C API cannot carry NUL; domain of the check). *)
-From Coq Require Import ZArith Bool String Ascii List.
+From Coq Require Import ZArith Bool String Ascii List DecimalString.
 From Flocq Require Import BinarySingleNaN.
 Require Import NixV.Base.Prelude NixV.Base.F64.
 Import ListNotations.
@@ -261,7 +261,16 @@ Inductive op :=
 | SetDef (s : string) | DefNone
 | Reopen (ro : bool)          (* close; open ReadOnly / ReadWrite; look the property up again *)
 | Obs                         (* dataType, valueCount, values, unit, uncertainty, definition *)
-| Count.                      (* valueCount *)
+| Count                       (* valueCount *)
+(* further public routes: the Variant value class itself (no file involved) and Property::compare / operator<< *)
+| VEq (a b : value)           (* operator== / != on Variant (and on the legacy nix::Value wrapper) *)
+| VGet (t : vtype) (v : value)   (* get(T&) / get<T>() with the requested type; [TBad "Nothing"] is get(none_t&) *)
+| VGetNoneT (v : value)       (* the specialisation get<none_t>(): no type check *)
+| VShow (v : value)           (* operator<< *)
+| VSup (t : vtype)            (* Variant::supports_type *)
+| VSwap (a b : value)         (* a.swap(b), then nix::swap(a, b) *)
+| Cmp (other : string)        (* compare() with a property of that name (same section; its own name: another section) *)
+| PShow.                      (* operator<<(Property) *)
 
 Record observation := {
   o_type : vtype; o_count : Z; o_vals : list value;
@@ -272,11 +281,86 @@ Inductive answer :=
 | ANoProp                     (* reopen found no property *)
 | AAbsent                     (* obs/count: the section has no property *)
 | ACount (n : Z)
-| AObs (o : observation).
+| AObs (o : observation)
+| ABits (bs : list bool)
+| AVals (vs : list value)
+| AText (s : string)
+| ASigns (a b c : Z).
 
 Definition observe (ps : pstore) : observation :=
   {| o_type := ds_type (ps_ds ps); o_count := prop_value_count ps; o_vals := prop_values ps;
      o_unit := get_str "unit" ps; o_unc := get_dbl "uncertainty" ps; o_def := get_str "definition" ps |}.
+
+(** ** The Variant value class *)
+
+(** [operator==(Variant, Variant)]: same type and same payload; doubles by the C++ == (NaN differs from itself, -0.0 equals 0.0) *)
+Definition variant_eqb (a b : value) : bool :=
+  match a, b with
+  | VBool x, VBool y => Bool.eqb x y
+  | VInt32 x, VInt32 y | VUInt32 x, VUInt32 y | VInt64 x, VInt64 y | VUInt64 x, VUInt64 y => Z.eqb x y
+  | VDouble x, VDouble y => feq x y
+  | VString x, VString y => String.eqb x y
+  | VNone, VNone => true
+  | _, _ => false
+  end.
+
+(** [get(T&)] / [get<T>()]: [check_argument_type] *)
+Definition variant_get (t : vtype) (v : value) : res value :=
+  if vtype_eqb (type_of v) t then Ok v else Err INVARG.
+
+Definition type_name (t : vtype) : string :=
+  match t with
+  | TBool => "Bool" | TInt32 => "Int32" | TUInt32 => "UInt32" | TInt64 => "Int64" | TUInt64 => "UInt64"
+  | TDouble => "Double" | TString => "String" | TOther n => n | TBad n => n
+  end.
+
+Definition dec_of_Z (z : Z) : string := NilZero.string_of_int (Z.to_int z).
+
+(** [operator<<(ostream, Variant)]; the decimal rendering of a double is left out ("?") *)
+Definition variant_show (prefix : string) (v : value) : string :=
+  prefix ++ "{[" ++ type_name (type_of v) ++ "] " ++
+  match v with
+  | VBool b => if b then "1" else "0"
+  | VInt32 z | VUInt32 z | VInt64 z | VUInt64 z => dec_of_Z z
+  | VDouble _ => "?"
+  | VString s => s
+  | VNone => ""
+  end ++ "}".
+
+(** [Variant::supports_type]: the seven and Nothing *)
+Definition variant_supports (t : vtype) : bool := supported t || vtype_eqb t (TBad "Nothing").
+
+(** [std::string::compare] reduced to its sign: bytes as unsigned, a proper prefix is smaller *)
+Fixpoint str_cmp (a b : string) : Z :=
+  match a, b with
+  | EmptyString, EmptyString => 0
+  | EmptyString, _ => -1
+  | _, EmptyString => 1
+  | String x a', String y b' =>
+    match N.compare (N_of_ascii x) (N_of_ascii y) with
+    | Lt => -1 | Gt => 1 | Eq => str_cmp a' b'
+    end
+  end%Z.
+
+Definition PROP_NAME : string := "p".
+
+(** the answers of the routes that do not touch the file (shared by model and specification: they are functions of the arguments) *)
+Definition pure_answer (o : op) : option answer :=
+  match o with
+  | VEq a b => Some (ABits [variant_eqb a b; negb (variant_eqb a b)])
+  | VGetNoneT _ => Some (AVals [VNone])
+  | VShow v => Some (AText (variant_show "Variant" v))
+  | VSup t => Some (ABits [variant_supports t])
+  | VSwap a b => Some (AVals [b; a; a; b])
+  | _ => None
+  end.
+
+(** [Property::compare]: the names decide; equal names (a property called the same in another section) fall
+    through to the ids, of which only "different, and antisymmetric" is known: answered as the signs (1, -1, 0)
+    by convention of the drivers *)
+Definition compare_signs (other : string) : answer :=
+  if String.eqb other PROP_NAME then AText "ids"
+  else ASigns (str_cmp PROP_NAME other) (str_cmp other PROP_NAME) 0.
 
 Definition fresh : fstate := {| f_prop := None; f_ro := false; f_leak := None |}.
 Definition with_prop (s : fstate) (ps : pstore) : fstate := {| f_prop := Some ps; f_ro := f_ro s; f_leak := f_leak s |}.
@@ -352,6 +436,19 @@ Definition step (q : quirks) (o : op) (s : fstate) : fstate * res answer :=
                   Ok (match f_prop s with Some _ => ADone | None => ANoProp end))
   | Obs => (s, Ok (match f_prop s with Some ps => AObs (observe_in s ps) | None => AAbsent end))
   | Count => (s, Ok (match f_prop s with Some ps => ACount (prop_value_count ps) | None => AAbsent end))
+  | VGet t v => (s, bind (variant_get t v) (fun x => Ok (AVals [x])))
+  | VEq _ _ | VGetNoneT _ | VShow _ | VSup _ | VSwap _ _ =>
+    (s, match pure_answer o with Some a => Ok a | None => Err "unreachable" end)
+  | Cmp other =>
+    (s, match f_prop s with
+        | None => Err "nix::UninitializedEntity"
+        | Some _ => if f_ro s then Err H5ERR          (* the second property cannot be created on a read-only file *)
+                    else Ok (compare_signs other)
+        end)
+  | PShow => (s, match f_prop s with
+                 | None => Err "nix::UninitializedEntity"
+                 | Some _ => Ok (AText ("Property: {name = " ++ PROP_NAME ++ "}"))
+                 end)
   end.
 
 (** a rejected create on the pinned tree can leave a property the section lists although the caller
@@ -428,6 +525,16 @@ Definition spec_step (o : op) (a : astate) : astate * option answer :=
   | Reopen ro => ({| a_prop := a_prop a; a_ro := ro |}, Some (match a_prop a with Some _ => ADone | None => ANoProp end))
   | Obs => (a, Some (match a_prop a with Some p => AObs (aobserve p) | None => AAbsent end))
   | Count => (a, Some (match a_prop a with Some p => ACount (zlen (a_vals p)) | None => AAbsent end))
+  | VGet t v => (a, match variant_get t v with Ok x => Some (AVals [x]) | _ => None end)
+  | VEq _ _ | VGetNoneT _ | VShow _ | VSup _ | VSwap _ _ => (a, pure_answer o)
+  | Cmp other => (a, match a_prop a with
+                     | None => None
+                     | Some _ => if a_ro a then None else Some (compare_signs other)
+                     end)
+  | PShow => (a, match a_prop a with
+                 | None => None
+                 | Some _ => Some (AText ("Property: {name = " ++ PROP_NAME ++ "}"))
+                 end)
   end.
 
 Fixpoint spec_run (ops : list op) (a : astate) : list (option answer) :=
